@@ -1,4 +1,5 @@
 import Tahoe.Base.LemmasMerkleSound
+import Tahoe.Base.LemmasMerkleOrder
 /-! `set_hashes` over batches with arbitrary int keys (`setHashesZ`): stray node numbers — negative, too
     large, off the chain — never leave anything behind and never get a forged value accepted. -/
 namespace Tahoe.Base.Merkle
@@ -320,5 +321,68 @@ theorem setHashesZ_castKeys [DecidableEq H] (ops : HashOps H) (cfg : Cfg) (pick 
         have hcls := levelsLoop_no_internal (ops.withCfg cfg) pick _ st0 hl (hr'.redPop (by simp))
         simp only
         split <;> (rcases hcls with e | e | e <;> subst e <;> rfl)
+
+/-! ## pop order over int-key batches -/
+
+theorem tryBodyZ_order [DecidableEq H] {ops : HashOps H} (htr : ∀ h, ops.truthy h = true)
+    (pick1 pick2 : List Nat → Nat) (t : Tree H) (new : List (Int × H)) {st1 : St H}
+    (h : tryBodyZ ops pick1 t new = .ok (st1, false)) :
+    ∃ st2, tryBodyZ ops pick2 t new = .ok (st2, false) ∧ st2.t = st1.t := by
+  unfold tryBodyZ at h
+  cases hp : provisionalZ ops new { t := t, red := [], rm := [] } false with
+  | error e => rw [hp] at h; cases h
+  | ok r =>
+    obtain ⟨st0, p⟩ := r
+    rw [hp] at h
+    cases p with
+    | true => simp only at h; injection h with h; injection h with e1 e2; cases e2
+    | false =>
+      simp only at h
+      cases hl : levelsLoop ops pick1 (depthOf (t.length - 1) + 1) st0 with
+      | error e => rw [hl] at h; cases h
+      | ok sta =>
+        rw [hl] at h; injection h with h; injection h with e1 e2; subst e1
+        obtain ⟨st2, h2, he⟩ := levelsLoop_eqv htr pick1 pick2 _ st0 st0 ⟨rfl, fun _ => Iff.rfl⟩ hl
+        refine ⟨st2, ?_, he.1.symm⟩
+        unfold tryBodyZ; rw [hp]; simp only; rw [h2]
+
+/-- an accepted int-key batch is accepted, with the same list, under every other pop order -/
+theorem setHashesZ_order [DecidableEq H] {ops : HashOps H} {cfg : Cfg} (hstrict : StrictPresence ops cfg)
+    (pick1 pick2 : List Nat → Nat) (first : Nat) (t : Tree H) (hashes leaves : List (Int × H))
+    (h : (setHashesZ ops cfg pick1 first t hashes leaves).1 = .ok) :
+    setHashesZ ops cfg pick2 first t hashes leaves = setHashesZ ops cfg pick1 first t hashes leaves := by
+  unfold setHashesZ at h ⊢
+  cases hm : mergeLeavesZ first hashes leaves with
+  | none => rfl
+  | some new =>
+    rw [hm] at h; simp only at h ⊢
+    cases hres : tryBodyZ (ops.withCfg cfg) pick1 t new with
+    | error e =>
+      obtain ⟨o', st⟩ := e
+      rw [hres] at h; simp only at h
+      split at h <;> cases h
+    | ok r =>
+      obtain ⟨st, p⟩ := r
+      rw [hres] at h
+      cases p with
+      | true => simp only at h; cases h
+      | false =>
+        obtain ⟨st2, h2, he⟩ := tryBodyZ_order (ops := ops.withCfg cfg) hstrict pick1 pick2 t new hres
+        rw [h2]; simp only; rw [he]
+
+/-! ## completeness over int-key batches -/
+
+theorem castKeys_toNat (l : List (Int × H)) (h : ∀ p ∈ l, 0 ≤ p.1) :
+    castKeys (l.map (fun p => (p.1.toNat, p.2))) = l := by
+  unfold castKeys
+  rw [List.map_map]
+  conv => rhs; rw [← List.map_id l]
+  apply List.map_congr_left
+  intro p hp
+  have := h p hp
+  obtain ⟨i, w⟩ := p
+  simp only [Function.comp, id]
+  congr 1
+  exact Int.toNat_of_nonneg this
 
 end Tahoe.Base.Merkle
